@@ -40,6 +40,7 @@ use {
         panic::{self, AssertUnwindSafe},
         pin::Pin,
         str::FromStr,
+        sync::atomic::{AtomicU64, Ordering::Relaxed},
         sync::{Arc, Mutex},
         task::{Context, Poll, RawWaker, RawWakerVTable, Waker},
     },
@@ -1491,6 +1492,718 @@ fn op_authenticator(c: &Value) -> R {
 }
 
 // ------------------------------------------------------------------------------------------------
+// Byte-wise, early-exit memcmp / bcmp
+// ------------------------------------------------------------------------------------------------
+//
+// These two definitions replace libc's (vectorised, 16/32 bytes at a time) routines for the whole
+// executable: a strong definition in the executable wins over the shared libc at link time, so every
+// `memcmp` / `bcmp` reference of the statically linked Rust code (this crate, the crate under test, its
+// dependencies, std) binds to them. Purpose: if the code under test compares secrets with `==` (which
+// rustc/LLVM lower to a `bcmp` call) the number of executed instructions depends on the position of
+// the first differing byte, and `ct_trace` sees it. `read_volatile` keeps LLVM from vectorising the
+// loops or turning them back into a libc call. The counters are constant work per call.
+
+static MEMCMP_CALLS: AtomicU64 = AtomicU64::new(0);
+static BCMP_CALLS: AtomicU64 = AtomicU64::new(0);
+static CMP_BYTES: AtomicU64 = AtomicU64::new(0);
+
+/// # Safety
+/// `a` and `b` must be valid for reads of `n` bytes (the C contract of `memcmp`).
+#[no_mangle]
+#[inline(never)]
+pub unsafe extern "C" fn memcmp(a: *const u8, b: *const u8, n: usize) -> i32 {
+    MEMCMP_CALLS.fetch_add(1, Relaxed);
+    let mut i = 0usize;
+    let mut r = 0i32;
+    while i < n {
+        let x = std::ptr::read_volatile(a.add(i));
+        let y = std::ptr::read_volatile(b.add(i));
+        i += 1;
+        if x != y {
+            r = i32::from(x) - i32::from(y);
+            break;
+        }
+    }
+    CMP_BYTES.fetch_add(i as u64, Relaxed);
+    r
+}
+
+/// # Safety
+/// `a` and `b` must be valid for reads of `n` bytes (the C contract of `bcmp`).
+#[no_mangle]
+#[inline(never)]
+pub unsafe extern "C" fn bcmp(a: *const u8, b: *const u8, n: usize) -> i32 {
+    BCMP_CALLS.fetch_add(1, Relaxed);
+    let mut i = 0usize;
+    let mut r = 0i32;
+    while i < n {
+        let x = std::ptr::read_volatile(a.add(i));
+        let y = std::ptr::read_volatile(b.add(i));
+        i += 1;
+        if x != y {
+            r = 1;
+            break;
+        }
+    }
+    CMP_BYTES.fetch_add(i as u64, Relaxed);
+    r
+}
+
+fn cmp_counters() -> (u64, u64, u64) {
+    (MEMCMP_CALLS.load(Relaxed), BCMP_CALLS.load(Relaxed), CMP_BYTES.load(Relaxed))
+}
+
+#[inline(never)]
+fn probe_slices_eq(a: &[u8], b: &[u8]) -> bool {
+    std::hint::black_box(a) == std::hint::black_box(b)
+}
+
+#[inline(never)]
+fn probe_slices_cmp(a: &[u8], b: &[u8]) -> std::cmp::Ordering {
+    std::hint::black_box(a).cmp(std::hint::black_box(b))
+}
+
+/// `{"op":"memcmp_probe","len":64,"pos":null|k}`: which of the two overrides do `==` and `cmp` on byte
+/// slices end up in, and how many bytes do they look at when the slices first differ at index `pos`.
+fn op_memcmp_probe(c: &Value) -> R {
+    let len = u64_or(c, "len", 64)?;
+    if len > 1 << 20 {
+        return Err("len must be at most 1048576".to_string());
+    }
+    let len = len as usize;
+    let pos = match field(c, "pos") {
+        None => None,
+        Some(v) => match v.as_u64() {
+            Some(p) if (p as usize) < len => Some(p as usize),
+            _ => return Err("pos must be null or an index below len".to_string()),
+        },
+    };
+    let a: Vec<u8> = (0..len).map(|i| b'a' + (i % 23) as u8).collect();
+    let mut b = a.clone();
+    if let Some(p) = pos {
+        b[p] ^= 0x55;
+    }
+    let delta = |before: (u64, u64, u64), after: (u64, u64, u64)| {
+        json!({"memcmp_calls": after.0 - before.0, "bcmp_calls": after.1 - before.1, "bytes_compared": after.2 - before.2})
+    };
+    let c0 = cmp_counters();
+    let equal = probe_slices_eq(&a, &b);
+    let c1 = cmp_counters();
+    let ordering = probe_slices_cmp(&a, &b);
+    let c2 = cmp_counters();
+    let mut eq = delta(c0, c1);
+    eq["result"] = json!(equal);
+    let mut cmp = delta(c1, c2);
+    cmp["result"] = json!(format!("{ordering:?}"));
+    Ok(json!({"len": len, "pos": pos, "eq": eq, "cmp": cmp}))
+}
+
+// ------------------------------------------------------------------------------------------------
+// ct_trace: instruction traces of validate_signature under ptrace single-stepping (Linux x86_64)
+// ------------------------------------------------------------------------------------------------
+
+const CT_MAX_STEPS: u64 = 5_000_000; // single-steps per child (before + inside the measured region)
+const CT_MAX_RUNS: usize = 1024; // presented signatures per command
+const CT_CHILD_DEADLINE_SECS: i64 = 300; // wall-clock limit for tracing one child
+
+static CT_MARK: AtomicU64 = AtomicU64::new(0);
+
+/// Entering this function for the first time opens the measured region, entering it for the second
+/// time closes it. The tracer recognises it by address (RIP == address of `ct_marker`).
+#[no_mangle]
+#[inline(never)]
+pub extern "C" fn ct_marker(x: u64) -> u64 {
+    // SAFETY: plain volatile store to a static; keeps the call from being optimised away.
+    unsafe { std::ptr::write_volatile(CT_MARK.as_ptr(), x) };
+    x
+}
+
+struct CtArgs<'a> {
+    sha: [u8; 32],
+    credential: &'a str,
+    session_token: Option<&'a str>,
+    timestamp: DateTime<Utc>,
+    region: &'a str,
+    service: &'a str,
+    server_time: DateTime<Utc>,
+    mismatch: TimeDelta,
+    script: Arc<Script>,
+}
+
+impl CtArgs<'_> {
+    fn authenticator(&self, signature: &str) -> Result<SigV4Authenticator, String> {
+        let mut b = SigV4Authenticator::builder();
+        b.canonical_request_sha256(self.sha)
+            .credential(self.credential.to_string())
+            .signature(signature.to_string())
+            .request_timestamp(self.timestamp);
+        if let Some(tok) = self.session_token {
+            b.session_token(tok);
+        }
+        b.build().map_err(|e| format!("SigV4AuthenticatorBuilder::build failed: {e}"))
+    }
+}
+
+/// Child side: everything up to `raise(SIGSTOP)` is setup, the measured region is bracketed by the two
+/// `ct_marker` calls. Returns the message for the parent.
+fn ct_child_body(a: &CtArgs<'_>, signature: &str) -> Value {
+    let log: SharedLog = Arc::default();
+    let polls = Cell::new(0u64);
+    let auth = match a.authenticator(signature) {
+        Ok(auth) => auth,
+        Err(e) => return json!({"error": e}),
+    };
+    let mut provider = Provider::new(&a.script, &log);
+    // Called through an opaque pointer: the optimiser cannot move work across the marker calls.
+    let marker: extern "C" fn(u64) -> u64 = std::hint::black_box(ct_marker);
+    let fut = auth.validate_signature(a.region, a.service, a.server_time, a.mismatch, &mut provider);
+    let before = cmp_counters();
+    // SAFETY: raise has no memory-safety preconditions. The tracer resumes us by single-stepping.
+    unsafe { libc::raise(libc::SIGSTOP) };
+    marker(1);
+    let r = run(|| block_on(fut, &polls));
+    marker(2);
+    let after = cmp_counters();
+    let (outcome, msg) = match &r {
+        Ok(Some(Ok(_))) => ("ok".to_string(), Value::Null),
+        Ok(Some(Err(e))) => (sig_kind(e).to_string(), json!(e.to_string())),
+        Ok(None) => (NEVER_READY.to_string(), Value::Null),
+        Err(p) => ("panic".to_string(), json!(format!("{} at {}", p["panic"], p["location"]))),
+    };
+    json!({
+        "outcome": outcome, "msg": msg, "polls": polls.get(),
+        "memcmp_calls": after.0 - before.0, "bcmp_calls": after.1 - before.1, "cmp_bytes": after.2 - before.2,
+    })
+}
+
+/// Runs in the forked child and never returns into the serving loop.
+fn ct_child_main(a: &CtArgs<'_>, signature: &str, wfd: libc::c_int) -> ! {
+    // SAFETY: plain syscalls on our own process; `_exit` skips atexit handlers and stdio flushing, so the
+    // child never writes to the (inherited) stdout of the parent.
+    unsafe {
+        libc::prctl(libc::PR_SET_PDEATHSIG, libc::SIGKILL as libc::c_ulong);
+        let null = std::ptr::null_mut::<libc::c_void>();
+        let msg = if libc::ptrace(libc::PTRACE_TRACEME, 0, null, null) != 0 {
+            json!({"error": format!("PTRACE_TRACEME failed: {}", io::Error::last_os_error())})
+        } else {
+            run(|| ct_child_body(a, signature))
+                .unwrap_or_else(|p| json!({"error": format!("child setup panicked: {p}")}))
+        };
+        let text = msg.to_string();
+        let mut off = 0usize;
+        while off < text.len() {
+            let n = libc::write(wfd, text.as_ptr().add(off).cast(), text.len() - off);
+            if n <= 0 {
+                break;
+            }
+            off += n as usize;
+        }
+        libc::_exit(0)
+    }
+}
+
+enum WaitEv {
+    Stopped(libc::c_int),
+    Exited(libc::c_int),
+    Signaled(libc::c_int),
+}
+
+extern "C" fn ct_on_alarm(_: libc::c_int) {}
+
+/// waitpid that gives up at `deadline` (a repeating ITIMER_REAL with a no-op, non-restarting handler
+/// interrupts the blocking call).
+fn ct_wait(pid: libc::pid_t, deadline: std::time::Instant) -> Result<WaitEv, String> {
+    loop {
+        let mut st: libc::c_int = 0;
+        // SAFETY: `st` is a valid out pointer.
+        let r = unsafe { libc::waitpid(pid, &mut st, libc::__WALL) };
+        if r == pid {
+            return Ok(if libc::WIFSTOPPED(st) {
+                WaitEv::Stopped(libc::WSTOPSIG(st))
+            } else if libc::WIFEXITED(st) {
+                WaitEv::Exited(libc::WEXITSTATUS(st))
+            } else if libc::WIFSIGNALED(st) {
+                WaitEv::Signaled(libc::WTERMSIG(st))
+            } else {
+                continue;
+            });
+        }
+        let e = io::Error::last_os_error();
+        if e.raw_os_error() == Some(libc::EINTR) {
+            if std::time::Instant::now() >= deadline {
+                return Err(format!("timeout: child not finished after {CT_CHILD_DEADLINE_SECS}s"));
+            }
+            continue;
+        }
+        return Err(format!("waitpid failed: {e}"));
+    }
+}
+
+fn ct_resume(request: libc::c_uint, pid: libc::pid_t, sig: libc::c_int) -> Result<(), String> {
+    // SAFETY: ptrace on a child that is our tracee and currently stopped; addr is ignored.
+    let r = unsafe { libc::ptrace(request, pid, std::ptr::null_mut::<libc::c_void>(), sig as usize as *mut libc::c_void) };
+    if r == -1 {
+        return Err(format!("ptrace resume request {request} failed: {}", io::Error::last_os_error()));
+    }
+    Ok(())
+}
+
+fn ct_is_stop_signal(sig: libc::c_int) -> bool {
+    matches!(sig, libc::SIGSTOP | libc::SIGTSTP | libc::SIGTTIN | libc::SIGTTOU)
+}
+
+/// Set (secs > 0) or clear the repeating real-time timer that bounds a blocking waitpid.
+fn ct_set_timer(secs: i64) {
+    let tv = |s: i64| libc::timeval {
+        tv_sec: s,
+        tv_usec: 0,
+    };
+    let it = libc::itimerval {
+        it_interval: tv(if secs > 0 { 1 } else { 0 }),
+        it_value: tv(secs),
+    };
+    // SAFETY: valid pointer to an initialised itimerval; the old value is not requested.
+    unsafe { libc::setitimer(libc::ITIMER_REAL, &it, std::ptr::null_mut()) };
+}
+
+/// Trace one child: wait for its SIGSTOP, single-step to the first `ct_marker` entry, record the address
+/// of every instruction executed from there up to (excluding) the second `ct_marker` entry into `seq`,
+/// then let the child run to its exit. Ok(single-steps spent before the region, exit description).
+/// On Err the child may still exist (the caller kills and reaps it).
+fn ct_trace_child(pid: libc::pid_t, marker: u64, seq: &mut Vec<u64>) -> Result<u64, String> {
+    let deadline = std::time::Instant::now() + std::time::Duration::from_secs(CT_CHILD_DEADLINE_SECS as u64);
+    let mut spurious = 0;
+    loop {
+        match ct_wait(pid, deadline)? {
+            WaitEv::Stopped(libc::SIGSTOP) => break,
+            WaitEv::Stopped(sig) => {
+                spurious += 1;
+                if spurious > 64 {
+                    return Err(format!("child keeps stopping with signal {sig} during setup"));
+                }
+                ct_resume(libc::PTRACE_CONT, pid, if ct_is_stop_signal(sig) { 0 } else { sig })?;
+            }
+            WaitEv::Exited(code) => return Err(format!("child exited with status {code} before the measured region")),
+            WaitEv::Signaled(sig) => return Err(format!("child killed by signal {sig} before the measured region")),
+        }
+    }
+    // SAFETY: the tracee is in a ptrace stop. Best effort (kills the tracee should this process die).
+    unsafe {
+        libc::ptrace(
+            libc::PTRACE_SETOPTIONS,
+            pid,
+            std::ptr::null_mut::<libc::c_void>(),
+            libc::PTRACE_O_EXITKILL as usize as *mut libc::c_void,
+        );
+    }
+
+    let mut inject: libc::c_int = 0;
+    let mut total: u64 = 0;
+    let mut pre: u64 = 0;
+    let mut inside = false;
+    loop {
+        if total >= CT_MAX_STEPS {
+            return Err(format!(
+                "step cap of {CT_MAX_STEPS} single-steps exceeded ({} of them inside the measured region)",
+                seq.len()
+            ));
+        }
+        ct_resume(libc::PTRACE_SINGLESTEP, pid, inject)?;
+        inject = 0;
+        let place = if inside { "inside" } else { "before" };
+        match ct_wait(pid, deadline)? {
+            WaitEv::Stopped(libc::SIGTRAP) => (),
+            WaitEv::Stopped(sig) => {
+                // Signal-delivery stop, no instruction retired: hand the signal to the child with the next
+                // step (stop signals are swallowed, they would park the tracee in a group-stop).
+                if !ct_is_stop_signal(sig) {
+                    inject = sig;
+                }
+                continue;
+            }
+            WaitEv::Exited(code) => return Err(format!("child exited with status {code} {place} the measured region")),
+            WaitEv::Signaled(sig) => return Err(format!("child killed by signal {sig} {place} the measured region")),
+        }
+        total += 1;
+        // SAFETY: all-zero is a valid user_regs_struct; GETREGS fills it.
+        let mut regs: libc::user_regs_struct = unsafe { std::mem::zeroed() };
+        // SAFETY: the tracee is stopped and `regs` is a valid out pointer.
+        let r = unsafe {
+            libc::ptrace(
+                libc::PTRACE_GETREGS,
+                pid,
+                std::ptr::null_mut::<libc::c_void>(),
+                &mut regs as *mut libc::user_regs_struct as *mut libc::c_void,
+            )
+        };
+        if r == -1 {
+            return Err(format!("PTRACE_GETREGS failed: {}", io::Error::last_os_error()));
+        }
+        let rip = regs.rip;
+        if !inside {
+            if rip == marker {
+                inside = true;
+                pre = total;
+                seq.push(rip);
+            }
+        } else if rip == marker {
+            break;
+        } else {
+            seq.push(rip);
+        }
+    }
+
+    // Outside the region again: let the child report and exit at full speed.
+    ct_resume(libc::PTRACE_CONT, pid, 0)?;
+    for _ in 0..64 {
+        match ct_wait(pid, deadline)? {
+            WaitEv::Exited(_) | WaitEv::Signaled(_) => return Ok(pre),
+            WaitEv::Stopped(sig) => {
+                ct_resume(libc::PTRACE_CONT, pid, if ct_is_stop_signal(sig) || sig == libc::SIGTRAP { 0 } else { sig })?
+            }
+        }
+    }
+    Err("child keeps stopping after the measured region".to_string())
+}
+
+/// Kill and reap a child whatever state it is in.
+fn ct_kill(pid: libc::pid_t) {
+    // SAFETY: plain syscalls; `pid` is a child of ours that has not been reaped yet.
+    unsafe {
+        libc::kill(pid, libc::SIGKILL);
+        let mut st: libc::c_int = 0;
+        for _ in 0..1000 {
+            let r = libc::waitpid(pid, &mut st, libc::__WALL);
+            if r == -1 && io::Error::last_os_error().raw_os_error() == Some(libc::EINTR) {
+                continue;
+            }
+            if r == -1 || libc::WIFEXITED(st) || libc::WIFSIGNALED(st) {
+                break;
+            }
+        }
+    }
+}
+
+/// Owns the forked children, the pipe and the SIGALRM disposition; Drop leaves nothing behind.
+struct CtChildren {
+    pids: Vec<(libc::pid_t, bool)>, // (pid, already reaped)
+    rfd: libc::c_int,
+    wfd: libc::c_int,
+    old_alarm: Option<libc::sigaction>,
+}
+
+impl Drop for CtChildren {
+    fn drop(&mut self) {
+        ct_set_timer(0);
+        for (pid, reaped) in &self.pids {
+            if !*reaped {
+                ct_kill(*pid);
+            }
+        }
+        // SAFETY: closing fds we own; restoring a disposition previously returned by sigaction.
+        unsafe {
+            if let Some(old) = &self.old_alarm {
+                libc::sigaction(libc::SIGALRM, old, std::ptr::null_mut());
+            }
+            for fd in [self.rfd, self.wfd] {
+                if fd >= 0 {
+                    libc::close(fd);
+                }
+            }
+        }
+    }
+}
+
+/// Drain whatever is in the (non-blocking) report pipe.
+fn ct_read_report(rfd: libc::c_int) -> Vec<u8> {
+    let mut out = Vec::new();
+    let mut buf = [0u8; 4096];
+    while out.len() < (1 << 20) {
+        // SAFETY: `buf` is valid for writes of its length.
+        let n = unsafe { libc::read(rfd, buf.as_mut_ptr().cast(), buf.len()) };
+        if n > 0 {
+            out.extend_from_slice(&buf[..n as usize]);
+        } else if n == -1 && io::Error::last_os_error().raw_os_error() == Some(libc::EINTR) {
+            continue;
+        } else {
+            break; // EOF, EAGAIN (empty) or an error
+        }
+    }
+    out
+}
+
+struct Locate {
+    addr: usize,
+    out: Option<String>,
+}
+
+unsafe extern "C" fn ct_locate_cb(info: *mut libc::dl_phdr_info, _size: libc::size_t, data: *mut libc::c_void) -> libc::c_int {
+    let q = &mut *(data as *mut Locate);
+    let info = &*info;
+    if info.dlpi_phdr.is_null() {
+        return 0;
+    }
+    for i in 0..info.dlpi_phnum as usize {
+        let ph = &*info.dlpi_phdr.add(i);
+        if ph.p_type != libc::PT_LOAD {
+            continue;
+        }
+        let start = (info.dlpi_addr as usize).wrapping_add(ph.p_vaddr as usize);
+        if q.addr >= start && q.addr - start < ph.p_memsz as usize {
+            let name = if info.dlpi_name.is_null() {
+                String::new()
+            } else {
+                std::ffi::CStr::from_ptr(info.dlpi_name).to_string_lossy().into_owned()
+            };
+            let short = name.rsplit('/').next().unwrap_or("");
+            let short = if short.is_empty() { "exe" } else { short };
+            q.out = Some(format!("{short}+{:#x}", q.addr.wrapping_sub(info.dlpi_addr as usize)));
+            return 1;
+        }
+    }
+    0
+}
+
+/// "object+0xoffset" (offset = link-time virtual address, what `nm`/`objdump -d` show; the main
+/// executable is called "exe"). Parent and forked children share one address space layout.
+fn ct_locate(addr: u64) -> String {
+    let mut q = Locate {
+        addr: addr as usize,
+        out: None,
+    };
+    // SAFETY: the callback only reads the loader's program header tables and writes to `q`.
+    unsafe { libc::dl_iterate_phdr(Some(ct_locate_cb), &mut q as *mut Locate as *mut libc::c_void) };
+    q.out.unwrap_or_else(|| format!("?+{addr:#x}"))
+}
+
+fn ct_trace_hash(seq: &[u64]) -> String {
+    let mut h = Sha256::new();
+    for rip in seq {
+        h.update(rip.to_le_bytes());
+    }
+    hex::encode(h.finalize())
+}
+
+fn op_ct_trace(c: &Value) -> R {
+    let sha = req_hex(c, "canonical_request_sha256")?;
+    let sha: [u8; 32] = sha.try_into().map_err(|_| "canonical_request_sha256 must be 32 bytes".to_string())?;
+    let mm_secs = i64_or(c, "mismatch_secs", 900)?;
+    let mm_nanos = u32::try_from(u64_or(c, "mismatch_nanos", 0)?).map_err(|_| "mismatch_nanos does not fit u32")?;
+    let args = CtArgs {
+        sha,
+        credential: req_str(c, "credential")?,
+        session_token: opt_str(c, "session_token")?,
+        timestamp: instant(field(c, "timestamp"), "timestamp")?,
+        region: req_str(c, "region")?,
+        service: req_str(c, "service")?,
+        server_time: instant(field(c, "server_time"), "server_time")?,
+        mismatch: TimeDelta::new(mm_secs, mm_nanos).ok_or("mismatch is out of TimeDelta's range")?,
+        script: Arc::new(parse_provider(c)?),
+    };
+    log::set_max_level(log::LevelFilter::Off); // trace!() in the measured region must stay a no-op
+    let _ = drain_logs();
+
+    // What the server will compute: hex(HMAC-SHA256(signing key, string to sign)).
+    let expected: Option<String> = if !args.credential.contains('/') {
+        None // get_string_to_sign is documented to panic
+    } else {
+        run(|| -> Result<Option<String>, String> {
+            let auth = args.authenticator("")?;
+            let key: [u8; 32] = match &args.script.result {
+                ResultSpec::Secret(s) => {
+                    let ks = KSecretKey::<44>::from_str(s).map_err(|e| format!("secret rejected: {e}"))?;
+                    *ks.to_ksigning(args.timestamp.date_naive(), args.region, args.service).as_ref()
+                }
+                ResultSpec::ZeroKey => [0u8; 32],
+                ResultSpec::Err(_) => return Ok(None),
+            };
+            let mut mac = Hmac::<Sha256>::new_from_slice(&key).map_err(|e| format!("hmac key rejected: {e}"))?;
+            mac.update(&auth.get_string_to_sign());
+            Ok(Some(hex::encode(mac.finalize().into_bytes())))
+        })
+        .map_err(|p| format!("computing the expected signature panicked: {p}"))??
+    };
+
+    // The presented signatures: "signatures" first, then "relative_to_expected".
+    let mut presented: Vec<(String, Option<Value>)> = Vec::new();
+    let listed = field(c, "signatures");
+    for s in str_list(listed, "signatures")? {
+        presented.push((s.to_string(), None));
+    }
+    let relative = match field(c, "relative_to_expected") {
+        None => None,
+        Some(Value::Array(a)) => Some(a),
+        Some(_) => return Err("relative_to_expected must be a list of [pos, char]".to_string()),
+    };
+    if listed.is_none() && relative.is_none() {
+        return Err("give \"signatures\" and/or \"relative_to_expected\"".to_string());
+    }
+    for entry in relative.into_iter().flatten() {
+        let bad = || "relative_to_expected entries must be [pos, \"c\"] with one ASCII character".to_string();
+        let (pos, ch) = match entry.as_array().map(Vec::as_slice) {
+            Some([p, Value::String(s)]) if s.len() == 1 => (p.as_u64().ok_or_else(bad)?, s.as_bytes()[0]),
+            _ => return Err(bad()),
+        };
+        let exp = expected.as_deref().ok_or("relative_to_expected needs an expected signature, but there is none \
+                                             (provider result is an error or the credential has no '/')")?;
+        let mut bytes = exp.as_bytes().to_vec();
+        let pos = usize::try_from(pos).ok().filter(|p| *p < bytes.len()).ok_or_else(|| {
+            format!("relative_to_expected position {pos} is outside the expected signature (length {})", bytes.len())
+        })?;
+        let used = if bytes[pos] != ch {
+            ch
+        } else if ch.is_ascii_digit() {
+            b'0' + (ch - b'0' + 1) % 10 // another digit
+        } else {
+            b'a' + (ch - b'a' + 1) % 6 // the expected signature is lower-case hex: another letter of a-f
+        };
+        bytes[pos] = used;
+        let sig = String::from_utf8(bytes).map_err(|_| bad())?;
+        presented.push((sig, Some(json!([pos, (used as char).to_string()]))));
+    }
+    if presented.is_empty() {
+        return Ok(json!({"runs": [], "all_equal": true, "expected_signature": expected}));
+    }
+    if presented.len() > CT_MAX_RUNS {
+        return Err(format!("at most {CT_MAX_RUNS} signatures per command"));
+    }
+
+    // --- fork every child first: they all start from the very same parent state (heap included), run
+    //     their setup concurrently and park in SIGSTOP until the tracer gets to them.
+    let mut fds = [-1 as libc::c_int; 2];
+    // SAFETY: `fds` is a valid array of two ints.
+    if unsafe { libc::pipe2(fds.as_mut_ptr(), libc::O_CLOEXEC) } != 0 {
+        return Err(format!("pipe2 failed: {}", io::Error::last_os_error()));
+    }
+    let mut kids = CtChildren {
+        pids: Vec::with_capacity(presented.len()),
+        rfd: fds[0],
+        wfd: fds[1],
+        old_alarm: None,
+    };
+    // SAFETY: fcntl on an fd we own.
+    unsafe {
+        let fl = libc::fcntl(kids.rfd, libc::F_GETFL);
+        libc::fcntl(kids.rfd, libc::F_SETFL, fl | libc::O_NONBLOCK);
+    }
+    for (sig, _) in &presented {
+        // No allocation in the parent inside this loop (`pids` has its capacity already).
+        // SAFETY: the process is single-threaded (serving loop on the main thread); the child only runs
+        // `ct_child_main`, which ends in `_exit`.
+        let pid = unsafe { libc::fork() };
+        if pid == 0 {
+            ct_child_main(&args, sig, kids.wfd);
+        }
+        if pid < 0 {
+            return Err(format!("fork failed: {}", io::Error::last_os_error())); // Drop reaps the others
+        }
+        kids.pids.push((pid, false));
+    }
+    // SAFETY: closing our copy of the write end; installing a no-op handler (no SA_RESTART) for SIGALRM.
+    unsafe {
+        libc::close(kids.wfd);
+        kids.wfd = -1;
+        let mut sa: libc::sigaction = std::mem::zeroed();
+        sa.sa_sigaction = ct_on_alarm as extern "C" fn(libc::c_int) as usize;
+        libc::sigemptyset(&mut sa.sa_mask);
+        let mut old: libc::sigaction = std::mem::zeroed();
+        if libc::sigaction(libc::SIGALRM, &sa, &mut old) == 0 {
+            kids.old_alarm = Some(old);
+        }
+    }
+
+    let marker = ct_marker as extern "C" fn(u64) -> u64 as usize as u64;
+    let mut reference: Option<Vec<u64>> = None;
+    let mut first_fingerprint: Option<(u64, String)> = None;
+    let mut all_equal = true;
+    let mut runs: Vec<Value> = Vec::new();
+    let mut seq: Vec<u64> = Vec::new();
+    for (i, (sig, rel)) in presented.iter().enumerate() {
+        let pid = kids.pids[i].0;
+        seq.clear();
+        ct_set_timer(CT_CHILD_DEADLINE_SECS);
+        let traced = ct_trace_child(pid, marker, &mut seq);
+        ct_set_timer(0);
+        if traced.is_err() {
+            ct_kill(pid);
+        }
+        kids.pids[i].1 = true;
+        let report = ct_read_report(kids.rfd);
+
+        let mut run_json = json!({"signature": sig});
+        if let Some(rel) = rel {
+            run_json["relative"] = rel.clone();
+        }
+        let mut error: Option<String> = traced.as_ref().err().cloned();
+        match serde_json::from_slice::<Value>(&report) {
+            Ok(Value::Object(m)) => {
+                for (k, v) in m {
+                    if k == "error" {
+                        error = Some(match (error.take(), v.as_str()) {
+                            (Some(e), Some(child)) => format!("{e}; child says: {child}"),
+                            (Some(e), None) => e,
+                            (None, child) => child.unwrap_or("unreadable child error").to_string(),
+                        });
+                    } else {
+                        run_json[k.as_str()] = v;
+                    }
+                }
+            }
+            _ if error.is_none() => error = Some("child sent no outcome report".to_string()),
+            _ => (),
+        }
+        match (&traced, &error) {
+            (Ok(pre), None) => {
+                let hash = ct_trace_hash(&seq);
+                run_json["steps"] = json!(seq.len());
+                run_json["pre_steps"] = json!(pre);
+                run_json["trace_hash"] = json!(hash);
+                let mut first_divergence = Value::Null;
+                match &reference {
+                    None => (),
+                    Some(r) => {
+                        let common = r.iter().zip(seq.iter()).take_while(|(a, b)| a == b).count();
+                        if common < r.len() || common < seq.len() {
+                            first_divergence = json!(common);
+                            let at = |s: &[u64], k: usize| s.get(k).map(|rip| ct_locate(*rip));
+                            run_json["divergence_at"] = json!({
+                                "last_common_rip": common.checked_sub(1).and_then(|k| at(&seq, k)),
+                                "rip": at(&seq, common),
+                                "ref_rip": at(r, common),
+                            });
+                        }
+                    }
+                }
+                run_json["first_divergence"] = first_divergence;
+                match &first_fingerprint {
+                    None => first_fingerprint = Some((seq.len() as u64, hash)),
+                    Some((n, h)) => all_equal &= *n == seq.len() as u64 && *h == hash,
+                }
+                if i == 0 {
+                    reference = Some(std::mem::take(&mut seq));
+                }
+            }
+            _ => {
+                all_equal = false;
+                run_json["error"] = json!(error.unwrap_or_else(|| "unknown failure".to_string()));
+                if !run_json.as_object().is_some_and(|o| o.contains_key("outcome")) {
+                    run_json["outcome"] = Value::Null;
+                }
+                run_json["steps"] = Value::Null;
+                run_json["trace_hash"] = Value::Null;
+                run_json["first_divergence"] = Value::Null;
+            }
+        }
+        runs.push(run_json);
+    }
+    drop(kids);
+    Ok(json!({
+        "runs": runs, "all_equal": all_equal, "expected_signature": expected,
+        "marker": ct_locate(marker), "max_steps": CT_MAX_STEPS,
+    }))
+}
+
+// ------------------------------------------------------------------------------------------------
 // Dispatch and main loop
 // ------------------------------------------------------------------------------------------------
 
@@ -1518,7 +2231,8 @@ fn dispatch(c: &Value) -> R {
         "validate" => op_validate(c),
         "authenticator" => op_authenticator(c),
         "fmt" => op_fmt(c),
-        "ct_trace" => Err("unsupported".to_string()),
+        "ct_trace" => op_ct_trace(c),
+        "memcmp_probe" => op_memcmp_probe(c),
         other => Err(format!("unknown op {other:?}")),
     }
 }
